@@ -300,6 +300,9 @@ def run(R):
     # ---------------------------------------------------------- (a'') one downscaler object, several datasets
     _shared_downscaler_stream(R, rng, quick)
 
+    # ---------------------------------------------------------- (a3) float32 with non-finite / special values
+    _special_float_stream(R, rng, quick)
+
     # ---------------------------------------------------------- (b) generator outputs, whole pyramid in memory
     for k in range(190 if quick else 3500):
         size, res, target, info = gen_pyramid_input(rng, 2500 if k % 3 else 9000)
@@ -597,6 +600,67 @@ def _shared_downscaler_stream(R, rng, quick):
                         prev = got
 
 
+def _special_float_stream(R, rng, quick):
+    """float32 volumes holding +inf / -inf / NaN regions (ragged masks), -0.0, denormals and FLT_MAX, through
+    the real compute_dyadic_scales with each method (stratified), compared NaN-aware and bitwise with the
+    independent whole-level reference: the mean of an all-inf block is inf, inf and -inf average to NaN,
+    all NaN voxels of a block count as ONE value in a majority vote (np.unique groups them)."""
+    from neuroglancer_scripts import dyadic_pyramid as dp
+    plan = [("average", "inf-regions"), ("majority", "nan-mask"), ("stride", "all"), ("average", "all"),
+            ("majority", "nan-and-inf"), ("average", "nan-mask")]
+    for k in range(len(plan) * (2 if quick else 25)):
+        method, flavour = plan[k % len(plan)]
+        size = [rng.choice([6, 9, 12]), rng.choice([5, 8, 10]), rng.choice([2, 4, 7])]
+        rng.shuffle(size)
+        C = 1 + (k % 2)
+        info = pc.base_info(size, [1, 1, 1], data_type="float32", num_channels=C)
+        dp.fill_scales_for_dyadic_pyramid(info, target_chunk_size=rng.choice([2, 4]))
+        n = C * size[0] * size[1] * size[2]
+        labels = [1.0, 2.0, 7.5, 300.25]
+        vol = np.array([rng.choice(labels) if method == "majority" else rng.uniform(-50, 50) for _ in range(n)],
+                       dtype=np.float32).reshape(C, size[2], size[1], size[0])
+        specials = {"inf-regions": [np.inf, -np.inf], "nan-mask": [np.nan], "nan-and-inf": [np.nan, np.inf, -np.inf],
+                    "all": list(pc.SPECIAL_F32)}[flavour]
+        if method == "majority":
+            # -0.0 and 0.0 are one label for np.unique and its representative is unspecified: keep zeros out
+            specials = [v for v in specials if v != 0.0]
+        # ragged regions (different extents per row) plus scattered voxels
+        for _r in range(3):
+            v = rng.choice(specials)
+            z0, y0, x0 = (rng.randrange(sh) for sh in vol.shape[1:])
+            for y in range(y0, vol.shape[2]):
+                vol[:, z0:, y, x0:x0 + 1 + rng.randrange(vol.shape[3])] = v
+        flat = vol.reshape(-1)
+        for _r in range(max(2, n // 5)):
+            flat[rng.randrange(n)] = rng.choice(specials)
+        io = pc.MemIO(copy.deepcopy(info))
+        io.fill_level(info["scales"][0]["key"], vol)
+        with np.errstate(all="ignore"), pc.poisoned(0x00):
+            out = pc.outcome_bc(lambda: dp.compute_dyadic_scales(io, pc.get_ds(method)))
+        case = {"special_floats": flavour, "method": method, "size": size, "C": C,
+                "data": vol.tobytes().hex() if vol.size <= 400 else "seeded"}
+        R.case(case, nontrivial=True)
+        R.count(f"special-floats:{method}:{flavour}:{out[0] if out[0] == 'ok' else out[-1]}")
+        if out[0] != "ok":
+            R.violation("float32 pyramid with non-finite values not processed", case, out)
+            continue
+        prev = vol
+        for li in range(1, len(info["scales"])):
+            got, full = io.assemble(info["scales"][li]["key"])
+            f3 = [pc.py_axis_f(a, b) for a, b in zip(info["scales"][li - 1]["size"], info["scales"][li]["size"])]
+            with np.errstate(all="ignore"):
+                want = _indep_whole(prev, f3, method, None)
+            if not full or not pc.same_values_bitwise(want, got):
+                bad = ~((want == got) | (np.isnan(want) & np.isnan(got))) if want.shape == got.shape else None
+                R.violation("float32 scale with non-finite / special values differs from the whole previous scale "
+                            "downscaled once", {**case, "level": li},
+                            {"voxels_differing": int(bad.sum()) if bad is not None else -1,
+                             "expected": want[bad][:4].tolist() if bad is not None else None,
+                             "stored": got[bad][:4].tolist() if bad is not None else None})
+                break
+            prev = got
+
+
 def _whole_level_oracle(R, rng, quick):
     """The property, literally: after the real commands ran, every scale must equal the selected
     downscaling method applied to the ENTIRE previous scale as one array (the package's own downscaler
@@ -616,6 +680,16 @@ def _whole_level_oracle(R, rng, quick):
         if dt == "float32":
             arr = np.array([rng.choice([0.0, 1.5, 2.5, 1e6, -3.25]) if rng.random() < 0.3 else rng.uniform(-5, 300)
                             for _ in range(n_el)], dtype=dt)
+            if i % 2 == 0:
+                # non-finite and special values as whole regions and as scattered voxels (ratio maps, masked
+                # backgrounds): an all-inf block must average to inf, NaN must be able to win a majority vote
+                flat = arr.reshape(-1)
+                for _r in range(3):
+                    v = rng.choice([np.inf, -np.inf, np.nan, np.inf, np.nan])
+                    st = rng.randrange(n_el)
+                    flat[st:st + max(2, n_el // 5)] = v
+                for _r in range(max(1, n_el // 6)):
+                    flat[rng.randrange(n_el)] = rng.choice(pc.SPECIAL_F32[:3] + pc.SPECIAL_F32[5:])
         else:
             hi = int(np.iinfo(dt).max)
             arr = np.array([rng.choice([0, 1, hi, hi - 1]) if rng.random() < 0.3 else rng.randrange(min(hi, 1000) + 1)
@@ -676,13 +750,13 @@ def _whole_level_oracle(R, rng, quick):
             want = ds.downscale(scales[a["key"]], factors)
             got = scales[b["key"]]
             indep = _indep_whole(scales[a["key"]], factors, "average" if method == "auto" else method, ov)
-            if indep.shape != want.shape or indep.tobytes() != np.ascontiguousarray(want).tobytes():
+            if not pc.same_values_bitwise(indep, np.ascontiguousarray(want).astype(indep.dtype, copy=False)):
                 R.violation("the package's downscaler applied to the whole previous scale differs from the "
                             "independent reference for the selected method and outside value", case,
                             {"from": a["key"], "to": b["key"], "factors": factors,
                              "voxels_differing": int((indep != want).sum()) if indep.shape == want.shape else -1})
                 break
-            if want.shape != got.shape or want.tobytes() != np.ascontiguousarray(got).tobytes():
+            if not pc.same_values_bitwise(np.ascontiguousarray(want), np.ascontiguousarray(got).astype(want.dtype, copy=False)):
                 nbad = int((want != got).sum()) if want.shape == got.shape else -1
                 R.violation("a scale differs from the downscaling of the whole previous scale", case,
                             {"from": a["key"], "to": b["key"], "factors": factors, "voxels_differing": nbad,
@@ -705,7 +779,8 @@ def _indep_whole(prev, factors, method, ov):
         if a.shape[0] % 2:
             last = a[-1:] if ov is None else np.full_like(a[-1:], float(ov))
             a = np.concatenate([a, last], axis=0)
-        a = 0.5 * (a[0::2] + a[1::2])
+        with np.errstate(all="ignore"):          # inf + -inf = NaN is the expected value, not a fault
+            a = 0.5 * (a[0::2] + a[1::2])
         a = np.moveaxis(a, 0, axis)
     if prev.dtype.kind in "ui":
         ii = np.iinfo(prev.dtype)
@@ -739,6 +814,12 @@ def _damage_one_source_chunk(rng, out, how):
 
 def replay(R, payload):
     case = payload.get("case", {})
+    if "special_floats" in case:
+        import logging
+        logging.disable(logging.CRITICAL)
+        _special_float_stream(R, R.rng, True)          # the whole stratified stream (a second or two)
+        logging.disable(logging.NOTSET)
+        return bool(R.violations)
     if "shared_downscaler" in case:
         import logging
         logging.disable(logging.CRITICAL)
